@@ -530,7 +530,7 @@ class MessageManager(ClientLike):
         # Increment message counts
         # Note: skip traffic count if we are currently forwarding out traffic messages)
         if not self.sending_traffic.get():
-            if self.b_send_msg_timing:
+            if self.b_send_msg_timing and 0 <= header.msg_type < cd.MAX_MESSAGE_TYPES:
                 self.message_counts[header.msg_type] += 1
             self.traffic_counter[header.msg_type] += 1
 
